@@ -15,7 +15,7 @@ pub fn def() -> CheckDef {
         meta: CheckMeta {
             id: "C10",
             level: "exploration",
-            rule: "seeded long stationary workloads (quick 800, thorough 4000 transactions each) over a bounded key set: (0) fixed-size overwrite, (1) variable-size overwrite/delete with values from 10 bytes to 4 pages, (2) bucket create/fill/delete cycles (in a quarter of them with 500-byte keys, so that branch pages carry overflow runs); variants: reopen every 25 transactions, 10% rollbacks, a reader pinned for the stretch [N/3, N/2) (file pre-sized, as in C03), and rolling young readers (a fresh reader open at the moment every writer begins and closed before its commit; or a reader opened after each commit and held across the whole next write transaction) which never need old pages. After every commit the independent parser measures live_t (reachable + free-list page run), dirty_t (pages in use now that were not in use before the commit) and the high-water mark H_t. Oracles: (i) without a pinned reader H_end <= 4*(max live + 2*max dirty) + 16 (fixed-size workload: max live + 3*max dirty + 8); (ii) with a pinned reader its dump stays equal to its snapshot at every 10th step, and H_end <= H_at_close + 2*max dirty + 8; (iii) the same across reopen; (iv) runs that begin with a one-off phase leaving more than 1024 pages in the free set (3000 keys put then deleted, or their bucket deleted) followed by the same stationary workloads: H at every step <= H when the stationary phase began + 2*max dirty + 8; every commit also passes exact page accounting and matches the model. Non-trivial = run of >= 300 commits whose cumulative dirty pages exceed 10x the bound (for (iv): >= 300 commits starting from more than 1024 free pages). Distinct = (workload, variant, seed).",
+            rule: "seeded long stationary workloads (quick 800, thorough 4000 transactions each) over a bounded key set: (0) fixed-size overwrite, (1) variable-size overwrite/delete with values from 10 bytes to 4 pages, (2) bucket create/fill/delete cycles (in a quarter of them with 500-byte keys, so that branch pages carry overflow runs), (3) sixteen short keys with tiny values that share their leaves with occasional values of 66-140 pages and of 1-4 pages (leaves split around long overflow runs; half the length of the other runs); variants: reopen every 25 transactions, 10% rollbacks, a reader pinned for the stretch [N/3, N/2) (file pre-sized, as in C03), and rolling young readers (a fresh reader open at the moment every writer begins and closed before its commit; or a reader opened after each commit and held across the whole next write transaction) which never need old pages. After every commit the independent parser measures live_t (reachable + free-list page run), dirty_t (pages in use now that were not in use before the commit) and the high-water mark H_t. Oracles: (i) without a pinned reader H_end <= 4*(max live + 2*max dirty) + 16 (fixed-size workload: max live + 3*max dirty + 8); (ii) with a pinned reader its dump stays equal to its snapshot at every 10th step, and H_end <= H_at_close + 2*max dirty + 8; (iii) the same across reopen; (iv) runs that begin with a one-off phase leaving more than 1024 pages in the free set (3000 keys put then deleted, or their bucket deleted) followed by the same stationary workloads: H at every step <= H when the stationary phase began + 2*max dirty + 8; every commit also passes exact page accounting and matches the model. Non-trivial = run of >= 300 commits whose cumulative dirty pages exceed 10x the bound (for (iv): >= 300 commits starting from more than 1024 free pages). Distinct = (workload, variant, seed).",
             assumptions: &[
                 "bounds are relative to live and dirty pages measured on the same run, so a different fill factor or allocation policy that still reuses space stays within them",
                 "calibrated on the unchanged tree: H plateaus well inside the bound, a free list that never releases pages exceeds it within a few hundred transactions",
@@ -83,6 +83,25 @@ fn gen_tx(case: &C10Case, rng: &mut Rng, i: u32, model: &MBucket) -> Vec<Op> {
                         _ => 1024 + rng.below(3 * 1024),
                     } as u32;
                     ops.push(Op::Put { b: 0, k: key(j), v: ValSel::Fill { len, seed: rng.next() as u8 }, kk: 2, vk: (rng.below(11)) as u8 });
+                }
+            }
+        }
+        3 => {
+            // sixteen short keys h00..h15 that sort in front of everything else in /w, mostly with
+            // tiny values (so that they share leaves of many entries), now and then with a value of
+            // 66-140 pages or of 1-4 pages: leaves that are split around a long overflow run
+            let hkey = |j: u64| KeySel::Lit(format!("h{:02}", j).into_bytes());
+            for _ in 0..5 {
+                let j = if rng.chance(1, 3) { rng.below(3) } else { rng.below(16) };
+                if rng.chance(1, 5) {
+                    ops.push(Op::Delete { b: 0, k: hkey(j) });
+                } else {
+                    let len = match rng.below(8) {
+                        0 => 66 * 1024 + rng.below(74 * 1024),
+                        1 => 1024 + rng.below(3 * 1024),
+                        _ => 10 + rng.below(30),
+                    } as u32;
+                    ops.push(Op::Put { b: 0, k: hkey(j), v: ValSel::Fill { len, seed: rng.next() as u8 }, kk: 2, vk: 2 });
                 }
             }
         }
@@ -388,6 +407,21 @@ pub fn plan(ctx: &ShardCtx) -> Vec<C10Case> {
             seed: mix(ctx.shard_seed("c10p"), j as u64),
             ntx: ntx / 2,
             prelude: 1 + ((idx / 6) % 2) as u8,
+        });
+    }
+    // short keys with tiny values sharing leaves with values of 66-140 pages
+    let per3 = ctx.tier.pick(2, 6);
+    for j in 0..per3 {
+        let idx = ctx.shard * per3 + j;
+        v.push(C10Case {
+            workload: 3,
+            reopen_every: if idx % 2 == 1 { 25 } else { 0 },
+            rollbacks: idx % 4 >= 2,
+            pinned_reader: false,
+            rolling: 0,
+            seed: mix(ctx.shard_seed("c10h"), j as u64),
+            ntx: ntx / 2,
+            prelude: 0,
         });
     }
     v
